@@ -170,6 +170,47 @@ class ReproCase(Case):
         return {}
 
 
+class OptimizerSeedCase(Case):
+    """A population optimizer given an explicit seed option must receive exactly that seed (0 included):
+    otherwise SciPy falls back to NumPy's global generator and the run depends on hidden state."""
+
+    family = "reproducibility/optimizer-seed"
+
+    def __init__(self, cid, key, parallel):
+        self.id, self.key, self.parallel = cid, key, parallel
+
+    def describe(self):
+        return f"differential_evolution options {{'{self.key}': <symbolic small integer>}} parallel={self.parallel}"
+
+    def inputs(self, env):
+        return {"seed": env.integer("seed", 0, 3)}
+
+    def run(self, env, inp):
+        import ropt.plugins.optimizer.scipy as S
+        from .common import make_config
+
+        seed = int(inp["seed"])
+        cfg = make_config({"variables": {"initial_values": [0.0, 0.0], "lower_bounds": -1.0, "upper_bounds": 1.0},
+                           "optimizer": {"method": "differential_evolution", "parallel": self.parallel, "options": {self.key: seed, "maxiter": 3}}})
+        rec = {}
+        old = (S.differential_evolution, S.Bounds)
+        S.differential_evolution = lambda **kw: rec.update(kw)
+        S.Bounds = lambda lo, hi: (lo, hi)
+        try:
+            S.SciPyOptimizer(cfg, lambda *a, **k: None).start(np.zeros(2))
+        finally:
+            S.differential_evolution, S.Bounds = old
+        return {"kw": rec, "seed": seed}
+
+    def props(self, env, inp, oc):
+        if not oc.ok:
+            return [("no_internal_exception:" + type(oc.exc).__name__, SB(False))]
+        kw, seed = oc.value["kw"], oc.value["seed"]
+        got = kw.get("seed", kw.get("rng", "missing"))
+        return [("explicit_seed_reaches_the_optimizer", SB(got == seed and not isinstance(got, str))),
+                ("other_options_forwarded", SB(kw.get("maxiter") == 3))]
+
+
 def build_cases(tier):
     cases = []
     k = 0
@@ -186,6 +227,10 @@ def build_cases(tier):
     add(methods=("norm", "lhs"), N=3, sampler_map=(0, 1, 0))
     add(methods=("sobol", "uniform"), N=3, sampler_map=(1, 0, 1), shared=True)
     add(methods=("truncnorm",), N=3, mask=(True, False, True), interference="hidden-only")
+    for key in ("seed", "rng"):
+        for par in (False, True):
+            k += 1
+            cases.append(OptimizerSeedCase(f"c16-{k:03d}", key, par))
     if tier == "thorough":
         for m in STATS + QMC:
             add(methods=(m,), shared=True, R=3)
